@@ -31,6 +31,7 @@ func genC01(t *rapid.T) C01Case {
 	tree := wrapRoot(g.Program(rootTy(t)))
 	fixEmptyLists(tree)
 	u := UniverseFor(t, tree, rapid.IntRange(0, 4).Draw(t, "collide") == 0)
+	operatorLikeNames(t, tree, u)
 	c := C01Case{U: *u, Tree: tree, How: rapid.IntRange(0, howModes-1).Draw(t, "how"), Var: rapid.IntRange(0, directiveVariants-1).Draw(t, "variant")}
 	c.Src = m.Render(tree)
 	return c
